@@ -25,6 +25,11 @@ class KernelStuck(Exception):
     pass
 
 
+class KernelBudget(BaseException):
+    """the scenario needs more kernel steps than its budget: the code under test does not come to an end (BaseException so
+    that the library's `except Exception` handlers cannot turn it into an ordinary error and carry on)"""
+
+
 class Proc:
     def __init__(self, name):
         self.name = name
@@ -63,6 +68,7 @@ class Kernel:
         self.live_threads = []
         self.explore_ties = explore_ties
         self.ties = 0
+        self.budget_exceeded = False
         self.yields = 0  # number of times the main thread yielded (used by harnesses to place preemptions)
         self.on_yield = None
 
@@ -125,7 +131,8 @@ class Kernel:
             self.steps += 1
             sx.tick()
             if self.steps > self.step_budget:
-                raise sx.Unwound("kernel step budget (%d) exhausted at t=%r" % (self.step_budget, self.now))
+                self.budget_exceeded = True
+                raise KernelBudget("kernel step budget (%d) exhausted at t=%r" % (self.step_budget, self.now))
             if self._fire_due():
                 continue
             # runnable procs other than `me` first when me is yielding (round robin), me included otherwise
